@@ -19,7 +19,7 @@ RULE = ("each case: a server holding a complete immutable share, an in-progress 
         "distinct by whole case.")
 LEVEL_TEXT = "Random search over the credential space of every route with a snapshot oracle."
 ASSUMPTIONS = ["TLS and the NURL handshake are outside the harness", "duplicated Authorization headers that include the correct value are not asserted either way"]
-REQUIRED_CLASSES = ["wrong-swissnum", "missing-authorization", "swissnum-prefix", "secrets-missing", "secrets-malformed", "wrong-upload-secret", "wrong-write-enabler", "wrong-enabler-new-share-only",
+REQUIRED_CLASSES = ["foreign-upload-after-reallocation", "wrong-swissnum", "missing-authorization", "swissnum-prefix", "secrets-missing", "secrets-malformed", "wrong-upload-secret", "wrong-write-enabler", "wrong-enabler-new-share-only",
                     "legit-ok", "route-read", "route-write"]
 BUDGET = {"quick": 900, "thorough": 7200}
 SW = b"swissnum-" + b"x" * 23
@@ -36,8 +36,23 @@ def plan(tier):
 @st.composite
 def cases(draw):
     reqs = draw(st.lists(st.fixed_dictionaries({"route": st.sampled_from(ROUTES), "auth": st.sampled_from(AUTH), "secrets": st.sampled_from(SECR), "which": st.integers(0, 2),
-                                                 "target": st.sampled_from(["complete", "inprogress", "mutable", "fresh"]), "arg": st.integers(0, 50)}), min_size=1, max_size=6))
+                                                 "target": st.sampled_from(["complete", "inprogress", "mutable", "fresh", "fresh"]), "arg": st.integers(0, 50),
+                                                 "actor": st.sampled_from(["A", "B"]), "share": st.integers(0, 1)}), min_size=1, max_size=8))
     # make the single-wrong-credential combinations on state-changing routes common
+    # two clients with different upload secrets allocating, aborting and writing shares of one storage index ("fresh"): ownership of an in-progress share follows the
+    # allocation that created it
+    if draw(st.integers(0, 2)) == 0:
+        pre = []
+        for _ in range(draw(st.integers(2, 6))):
+            pre.append({"route": draw(st.sampled_from(["allocate", "allocate", "abort", "patch", "patch"])), "auth": "ok", "secrets": "ok", "which": 0, "target": "fresh", "arg": 0,
+                        "actor": draw(st.sampled_from(["A", "B"])), "share": draw(st.integers(0, 1))})
+        if draw(st.booleans()):
+            # one client gives up a share while its other share is still in progress; another client takes the share over; the first one comes back
+            x, y = draw(st.sampled_from([("A", "B"), ("B", "A")]))
+            shn = draw(st.integers(0, 1))
+            mk = lambda route, actor: {"route": route, "auth": "ok", "secrets": "ok", "which": 0, "target": "fresh", "arg": 0, "actor": actor, "share": shn}
+            pre = [mk("allocate", x), mk("abort", x), mk("allocate", y), mk(draw(st.sampled_from(["patch", "abort"])), x), mk("patch", y)] + pre[:2]
+        reqs = pre + reqs
     combos = [("rtw", "ok", "wrong-value", "mutable"), ("rtw", "ok", "wrong-enabler-newshare", "mutable"), ("patch", "ok", "ok", "inprogress"), ("abort", "ok", "ok", "inprogress"),
               ("allocate", "wrong", "ok", "fresh"), ("rtw", "prefix", "ok", "mutable"), ("lease", "missing", "ok", "complete"), ("read-imm", "wrong", "ok", "complete"),
               ("read-mut", "missing", "ok", "mutable"), ("rtw", "ok", "ok", "mutable"), ("allocate", "ok", "ok", "fresh")]
@@ -86,21 +101,23 @@ def run_case(case, ctx):
     classes = set()
     nt = False
     hist = []
+    owner, ever_owned, realloc, alloc_hist = {}, {}, {}, []
     for rq in case["reqs"]:
         route, auth, sec, tgt = rq["route"], rq["auth"], rq["secrets"], rq["target"]
         si_b32 = __import__("allmydata.storage.common", fromlist=["x"]).si_b2a(SI[tgt]).decode("ascii")
         method, path, needed, body, hdrs = "GET", "/storage/v1/version", [], None, {}
         sharenum = 0 if sec != "wrong-enabler-newshare" else 1
+        fsh = rq.get("share", 0) if tgt == "fresh" else 0
         if route == "allocate":
             method, path, needed = "POST", "/storage/v1/immutable/%s" % si_b32, ["lease-renew-secret", "lease-cancel-secret", "upload-secret"]
             body = cbor2.dumps({"share-numbers": {0, 1}, "allocated-size": 30})
             hdrs["Content-Type"] = ["application/cbor"]
         elif route == "abort":
-            method, path, needed = "PUT", "/storage/v1/immutable/%s/0/abort" % si_b32, ["upload-secret"]
+            method, path, needed = "PUT", "/storage/v1/immutable/%s/%d/abort" % (si_b32, fsh), ["upload-secret"]
         elif route == "patch":
-            method, path, needed = "PATCH", "/storage/v1/immutable/%s/0" % si_b32, ["upload-secret"]
+            method, path, needed = "PATCH", "/storage/v1/immutable/%s/%d" % (si_b32, fsh), ["upload-secret"]
             body = b"Z" * 10
-            hdrs["Content-Range"] = ["bytes %d-%d/*" % (20, 29)]
+            hdrs["Content-Range"] = ["bytes %d-%d/*" % (20, 29) if tgt != "fresh" else "bytes 0-9/*"]
         elif route == "list-imm":
             path = "/storage/v1/immutable/%s/shares" % si_b32
         elif route == "read-imm":
@@ -156,7 +173,9 @@ def run_case(case, ctx):
         else:
             classes.add("missing-authorization")
         # ---- secrets
-        values = {"lease-renew-secret": RENEW, "lease-cancel-secret": CANCEL, "upload-secret": U_ATTACKER if tgt == "inprogress" else b"fresh-upload-secret-0000", "write-enabler": WE}
+        actor = rq.get("actor", "A")
+        actor_secret = {"A": b"client-A-upload-secret-0", "B": b"client-B-upload-secret-1"}[actor]
+        values = {"lease-renew-secret": RENEW, "lease-cancel-secret": CANCEL, "upload-secret": U_ATTACKER if tgt == "inprogress" else actor_secret, "write-enabler": WE}
         secrets_ok = True
         wrong_value = False
         xs = []
@@ -218,6 +237,13 @@ def run_case(case, ctx):
                 ctx.check(400 <= code < 500, "bad-secrets-accepted", "%s: answered %d although the X-Tahoe-Authorization secrets are missing/extra/malformed" % (desc, code), route=route, secrets=sec)
                 ctx.check(after == before, "state-changed-with-bad-secrets", "%s: server state changed" % desc, route=route, secrets=sec)
                 nt = nt or state_changing
+            elif route in ("patch", "abort") and tgt == "fresh" and secrets_ok and owner.get(fsh) not in (None, actor):
+                classes.add("wrong-upload-secret")
+                classes.add("foreign-upload-after-reallocation" if realloc.get(fsh) else "foreign-upload-other-client")
+                nt = True
+                ctx.check(400 <= code < 500, "foreign-upload-touched", "%s: answered %d to client %s's request on share %d, whose in-progress upload belongs to client %s (allocation history %r)" % (
+                    desc, code, actor, fsh, owner.get(fsh), alloc_hist), route=route)
+                ctx.check(after == before, "foreign-upload-changed", "%s: client %s's in-progress upload of share %d changed" % (desc, owner.get(fsh), fsh), route=route)
             elif route in ("patch", "abort") and tgt == "inprogress":
                 classes.add("wrong-upload-secret")
                 nt = True
@@ -230,4 +256,26 @@ def run_case(case, ctx):
                 ctx.check(after == before, "slot-changed-with-wrong-enabler", "%s: the slot changed" % desc, sharenum=sharenum)
             elif 200 <= code < 300:
                 classes.add("legit-ok")
+            # ---- ownership bookkeeping for the two-client storage index
+            if tgt == "fresh" and 200 <= code < 300 and secrets_ok:
+                if route == "allocate":
+                    try:
+                        got_alloc = cbor2.loads(content).get("allocated", [])
+                    except Exception:
+                        got_alloc = []
+                    for sh_ in got_alloc:
+                        if sh_ in ever_owned and ever_owned[sh_] != actor:
+                            realloc[sh_] = True
+                        owner[sh_] = actor
+                        ever_owned[sh_] = actor
+                        alloc_hist.append((actor, "allocate", sh_))
+                elif route == "abort" and owner.get(fsh) == actor:
+                    owner[fsh] = None
+                    alloc_hist.append((actor, "abort", fsh))
+                elif route == "patch" and owner.get(fsh) == actor:
+                    try:
+                        if cbor2.loads(content).get("required") == []:
+                            owner[fsh] = "done"
+                    except Exception:
+                        pass
     ctx.note(sig=repr(case), nontrivial=nt, classes=sorted(classes), sample={"requests": hist[:6]})
